@@ -63,10 +63,11 @@ def absorb (st : Array UInt64) (block : List Nat) : Array UInt64 :=
   let ls := lanes (rate / 8) block
   keccakF ((List.range 25).map (fun i => if i < ls.length then st[i]! ^^^ ls[i]! else st[i]!)).toArray
 
-/-- pad10*1 with the SHA-3 domain bits: `0x06 … 0x80` (one byte `0x86` when exactly one byte is missing) -/
-def pad (msg : List Nat) : List Nat :=
+/-- pad10*1 after the domain bits `d` (`0x06` for SHA-3, `0x01` for the original Keccak): `d … 0x80`, one byte
+`d ||| 0x80` when exactly one byte is missing -/
+def padD (d : Nat) (msg : List Nat) : List Nat :=
   let q := rate - msg.length % rate
-  if q = 1 then msg ++ [0x86] else msg ++ [0x06] ++ List.replicate (q - 2) 0 ++ [0x80]
+  if q = 1 then msg ++ [d + 0x80] else msg ++ [d] ++ List.replicate (q - 2) 0 ++ [0x80]
 
 def blocks : Nat → List Nat → Array UInt64 → Array UInt64
   | 0, _, st => st
@@ -74,17 +75,26 @@ def blocks : Nat → List Nat → Array UInt64 → Array UInt64
 
 def laneBytes (w : UInt64) : List Nat := (List.range 8).map (fun i => (w.toNat >>> (8 * i)) % 256)
 
-/-- SHA3-256 digest, 32 bytes -/
-def hashBytes (msg : List Nat) : List Nat :=
-  let p := pad (msg.map (· % 256))
+/-- the 256-bit sponge output with domain bits `d`, 32 bytes -/
+def hashBytesD (d : Nat) (msg : List Nat) : List Nat :=
+  let p := padD d (msg.map (· % 256))
   let st := blocks (p.length / rate) p (Array.replicate 25 0)
   laneBytes st[0]! ++ laneBytes st[1]! ++ laneBytes st[2]! ++ laneBytes st[3]!
 
+/-- SHA3-256 digest, 32 bytes -/
+def hashBytes (msg : List Nat) : List Nat := hashBytesD 0x06 msg
+
+/-- Keccak-256 (the pre-standard padding Ethereum uses; `evmlib::cryptography::hash`), 32 bytes -/
+def keccak256 (msg : List Nat) : List Nat := hashBytesD 0x01 msg
+
 theorem laneBytes_length (w : UInt64) : (laneBytes w).length = 8 := by simp [laneBytes]
 
+theorem hashBytesD_length (d : Nat) (msg : List Nat) : (hashBytesD d msg).length = 32 := by
+  simp [hashBytesD, laneBytes_length]
+
 /-- every digest has 32 bytes -/
-theorem hashBytes_length (msg : List Nat) : (hashBytes msg).length = 32 := by
-  simp [hashBytes, laneBytes_length]
+theorem hashBytes_length (msg : List Nat) : (hashBytes msg).length = 32 := hashBytesD_length _ _
+theorem keccak256_length (msg : List Nat) : (keccak256 msg).length = 32 := hashBytesD_length _ _
 
 theorem laneBytes_lt (w : UInt64) : ∀ b ∈ laneBytes w, b < 256 := by
   intro b hb
@@ -92,11 +102,13 @@ theorem laneBytes_lt (w : UInt64) : ∀ b ∈ laneBytes w, b < 256 := by
   obtain ⟨i, _, rfl⟩ := hb
   exact Nat.mod_lt _ (by decide)
 
-/-- every digest byte is a byte -/
-theorem hashBytes_lt (msg : List Nat) : ∀ b ∈ hashBytes msg, b < 256 := by
+theorem hashBytesD_lt (d : Nat) (msg : List Nat) : ∀ b ∈ hashBytesD d msg, b < 256 := by
   intro b hb
-  simp only [hashBytes, List.mem_append] at hb
+  simp only [hashBytesD, List.mem_append] at hb
   rcases hb with ((h | h) | h) | h <;> exact laneBytes_lt _ _ h
+
+/-- every digest byte is a byte -/
+theorem hashBytes_lt (msg : List Nat) : ∀ b ∈ hashBytes msg, b < 256 := hashBytesD_lt _ _
 
 def hexNat (bs : List Nat) : Nat := bs.foldl (fun a b => a * 256 + b) 0
 
@@ -104,5 +116,9 @@ def hexNat (bs : List Nat) : Nat := bs.foldl (fun a b => a * 256 + b) 0
 #guard hexNat (hashBytes []) = 0xa7ffc6f8bf1ed76651c14756a061d662f580ff4de43b49fa82d80a4b80f8434a
 #guard hexNat (hashBytes [0x61, 0x62, 0x63]) = 0x3a985da74fe225b2045c172d6bd390bd855f086e3e9d525b46bfe24511431532
 #guard hexNat (hashBytes (List.replicate 200 0xa3)) = 0x79f38adec5c20307a98ef76e8324afbfd46cfd81b22e3973c65fa1bd9de31787
+
+-- Keccak-256 of the empty string and of "abc" (Ethereum's well-known values)
+#guard hexNat (keccak256 []) = 0xc5d2460186f7233c927e7db2dcc703c0e500b653ca82273b7bfad8045d85a470
+#guard hexNat (keccak256 [0x61, 0x62, 0x63]) = 0x4e03657aea45a94fc7d47ba826c8d667c0d1e6e33a64a036ec44f58fa12d6c45
 
 end SafeNet.Sha3
